@@ -8,6 +8,7 @@ import (
 	"math"
 	"net/http"
 	"net/http/httptest"
+	"reflect"
 	"strings"
 	"time"
 
@@ -36,7 +37,8 @@ func runC17(em *vEmitter, r *vRng) {
 	conds := []string{"score >= 3", "entropy >= 40", "time >= 100000", "score >= 0", "score >= 4", "score >= 5", "score>=3", "score >=3", "score >= 3 ",
 		"  score   >=\t3\n", "score > 3", "score <= 3", "score == 3", ">= score 3", "3 >= score", "Score >= 3", "score >= three", "score >= -1", "score >= +1",
 		"score >= 3.0", "score >= 1e1", "score >= 0x2", "score >= 03", "entropy >= 18446744073709551615", "entropy >= 18446744073709551616",
-		"time >= 0", "", " ", "score", "score >=", "score >= 3 extra", "score >= 3\x00", "score >= 3", "length >= 8", "entropy => 3", "time >= 1_000"}
+		"time >= 0", "score >= NaN", "entropy >= nan", "time >= Inf", "score >= +Inf", "entropy >= 37.5", "entropy >= 4e1", "score >= 0b11", "score >= 0o3", "score >= 3_0",
+		"time >= 18446744073709551615", "time >= 18446744073709551616", "", " ", "score", "score >=", "score >= 3 extra", "score >= 3\x00", "score >= 3", "length >= 8", "entropy => 3", "time >= 1_000"}
 	kinds := []string{"score", "entropy", "time", "len", "Score", ""}
 	for i := 0; i < 150; i++ {
 		k := kinds[r.intn(len(kinds))]
@@ -54,18 +56,23 @@ func runC17(em *vEmitter, r *vRng) {
 				continue
 			}
 			p, err := NewPasswordPolicy(ty, c)
-			out := "None"
+			// what was accepted is identified by BEHAVIOUR (the public Check on a panel of passwords whose
+			// estimator values the harness computes itself), not by looking into the policy object; the
+			// threshold is additionally read by reflection when such a field exists
+			probePws := []string{"", "a", "password", "Password1", "alice", "qwertyuiop", "Tr0ub4dor&3", "j8#Kq!2mZ@", "correct horse battery staple",
+				"x7Gq2LmPz9Wt4Rb6", "aaaaaaaaaaaaaaaa", strings.Repeat("ab", 40), "Zq8#vP2$kL9@wX4!nB7^"}
+			var probes []string
+			thr := "None"
 			if err == nil {
-				switch z := p.(type) {
-				case nullPolicy:
-					out = "(Some PNone)"
-				case zxcvbnPolicy:
-					// identify the comparator by behaviour (function values cannot be compared)
-					kind := "?"
-					hi := zxcvbn.PasswordStrength("correct horse battery staple 9!", nil)
-					_ = hi
-					kind = c17Kind(z)
-					out = fmt.Sprintf("(Some (PZxcvbn {| p_kind := %s; p_thr := %d |}))", kind, z.threshold)
+				for _, pw := range probePws {
+					res, cerr := p.Check(pw, "alice")
+					probes = append(probes, fmt.Sprintf("(%s, %s)", c17Strength(pw, "alice"), cB(res && cerr == nil)))
+				}
+				rv := reflect.ValueOf(p)
+				if rv.Kind() == reflect.Struct {
+					if f := rv.FieldByName("threshold"); f.IsValid() && f.Kind() >= reflect.Uint && f.Kind() <= reflect.Uint64 {
+						thr = fmt.Sprintf("(Some %d)", f.Uint())
+					}
 				}
 			}
 			ascii := true
@@ -75,7 +82,7 @@ func runC17(em *vEmitter, r *vRng) {
 				}
 			}
 			cc := vCase{Prop: "C17", Kind: "condition", Class: "condition/" + map[bool]string{true: "accepted", false: "refused"}[err == nil], Nontrivial: true,
-				Coq: fmt.Sprintf("CondCase %s %s %s", cS(ty), cS(c), out), Human: map[string]interface{}{"type": ty, "condition": c, "err": fmt.Sprint(err)}}
+				Coq: fmt.Sprintf("CondBehav %s %s %s %s %s", cS(ty), cS(c), cB(err == nil), thr, cList(probes)), Human: map[string]interface{}{"type": ty, "condition": c, "err": fmt.Sprint(err)}}
 			if !ascii {
 				// strings.Fields also splits on Unicode white space; the model (and the
 				// theorem) covers ASCII conditions only: recorded, not compared
@@ -224,27 +231,6 @@ func runC17(em *vEmitter, r *vRng) {
 		}
 		em.emit(c)
 		ms.cleanup()
-	}
-}
-
-// which comparator did the constructor pick?  probe it with synthetic scores
-func c17Kind(z zxcvbnPolicy) string {
-	type probe struct {
-		score   int
-		ent, ct float64
-	}
-	mk := func(p probe) bool {
-		var m = zxcvbn.PasswordStrength("a", nil)
-		m.Score, m.Entropy, m.CrackTime = p.score, p.ent, p.ct
-		return z.condition(m, 1)
-	}
-	switch {
-	case mk(probe{1, 0, 0}) && !mk(probe{0, 5, 5}):
-		return "KScore"
-	case mk(probe{0, 1, 0}) && !mk(probe{5, 0, 5}):
-		return "KEntropy"
-	default:
-		return "KTime"
 	}
 }
 
